@@ -186,10 +186,22 @@ impl G {
         match self.rng.below(12) {
             0 | 1 => Deadline::Immediate,
             2 => Deadline::In(0),
-            3 => Deadline::In(u64::MAX),
+            3 => {
+                if self.rng.chance(1, 2) {
+                    Deadline::In(u64::MAX)
+                } else {
+                    Deadline::In(self.far())
+                }
+            }
             4 | 5 => Deadline::At(self.rng.below(60) * MS),
             _ => Deadline::In(self.rng.range(1, 40) * MS),
         }
+    }
+
+    /// centuries away, around and beyond 2^63 ns (but such that now + d still fits 64 bits)
+    pub fn far(&mut self) -> u64 {
+        const Y: u64 = 31_557_600_000_000_000;
+        *self.rng.pick(&[100 * Y, (1u64 << 63) - 5 * MS, (1u64 << 63) + 150 * MS, 300 * Y, (1u64 << 63) + (1u64 << 62), 500 * Y])
     }
 
     fn timeout(&mut self) -> Timeout {
@@ -197,7 +209,13 @@ impl G {
             0..=4 => Timeout::Zero,
             5..=7 => Timeout::Some(self.rng.range(1, 30) * MS),
             8 => Timeout::Some(self.rng.range(1, 5) * 100 * MS),
-            _ => Timeout::None,
+            _ => {
+                if self.rng.chance(1, 6) {
+                    Timeout::Some(self.far())
+                } else {
+                    Timeout::None
+                }
+            }
         }
     }
 
@@ -213,7 +231,11 @@ impl G {
                 6 => Ret::TIn(self.rng.range(1, 5) * MS),
                 _ => {
                     if self.rng.chance(1, 6) {
-                        Ret::TIn(u64::MAX)
+                        if self.rng.chance(1, 2) {
+                            Ret::TIn(u64::MAX)
+                        } else {
+                            Ret::TIn(self.far())
+                        }
                     } else {
                         Ret::TDrop
                     }
@@ -229,7 +251,13 @@ impl G {
                 0..=4 => Ret::Continue,
                 5 => Ret::Reregister,
                 6 => Ret::Disable,
-                7 => Ret::Remove,
+                7 => {
+                    if self.rng.chance(1, 3) {
+                        Ret::UnwrapRemove
+                    } else {
+                        Ret::Remove
+                    }
+                }
                 8 => {
                     if self.p.err_returns {
                         Ret::Err
@@ -260,6 +288,19 @@ impl G {
 
     /// one operation inside a callback (may expand to two: remove + insert for slot reuse)
     pub fn cb_op(&mut self, me: Option<Id>, depth: u32) -> Vec<Op> {
+        if self.p.adapters > 0 && !self.adapters.is_empty() && self.rng.chance(1, 10) {
+            // adapters from inside callbacks: release one (and reuse its slot at once), or
+            // any other adapter operation
+            if self.rng.chance(1, 2) {
+                let a = *self.rng.pick(&self.adapters.clone());
+                let mut v = vec![if self.rng.chance(1, 2) { Op::AdapterDrop(a) } else { Op::AdapterIntoInner(a) }];
+                if depth < 2 && self.rng.chance(2, 3) {
+                    v.push(self.insert_op(depth + 1));
+                }
+                return v;
+            }
+            return crate::gen2::adapter_op(self).into_iter().collect();
+        }
         let target_self = me.is_some() && self.rng.chance(2, 5);
         let tgt = if target_self { me } else { self.any_src().map(|s| s.0) };
         let r = self.rng.below(20 + self.p.reuse_bias as u64 * 2);
@@ -317,7 +358,13 @@ impl G {
         let id = *self.rng.pick(&c);
         let dl = match self.rng.below(4) {
             0 => Deadline::In(self.rng.range(1, 40) * MS),
-            1 => Deadline::In(3_600_000 * MS),
+            1 => {
+                if self.rng.chance(2, 3) {
+                    Deadline::In(3_600_000 * MS)
+                } else {
+                    Deadline::In(self.far())
+                }
+            }
             2 => Deadline::Immediate,
             _ => Deadline::At(self.rng.below(80) * MS),
         };
